@@ -192,8 +192,8 @@ func c20(c *Ctx) {
 			cut := map[ssa.Instruction]bool{}
 			for _, cs := range engine.Calls(app) {
 				for _, a := range cs.Common().Args {
-					if mc, ok := a.(*ssa.MakeClosure); ok {
-						for _, cs2 := range engine.Calls(mc.Fn.(*ssa.Function)) {
+					if fn := engine.FuncValue(a); fn != nil && fn.Parent() != nil {
+						for _, cs2 := range engine.Calls(fn) {
 							if sc := cs2.Common().StaticCallee(); sc != nil && sc.Name() == "actionCreateRecoveredMessage" {
 								cut[cs.Instr] = true
 							}
